@@ -527,7 +527,53 @@ class C19:
                        "bytes (thorough)")
 
 
-LEAF = {"C19": C19, "C15": C15, "C16": C16, "C06": C06, "C05": C05}
+# ------------------------------------------------------------------------------------------- C14 (notification round)
+class C14:
+    module = "Properties_C14"
+
+    @staticmethod
+    def case(live, react):
+        l = ",".join(map(str, live)) if live else "-"
+        r = ";".join("%d:%s" % (o, ".".join(map(str, g))) for o, g in sorted(react.items()) if g) or "-"
+        return "obsround %s %s" % (l, r)
+
+    @staticmethod
+    def corpus():
+        c = C14.case
+        return [c([], {}), c([1], {}), c([1, 2, 3], {}), c([1, 2, 3], {2: [2]}), c([1, 2, 3], {1: [3]}), c([1, 2, 3], {3: [1]}),
+                c([1, 2, 3], {1: [1, 2, 3]}), c([1, 2, 1, 3], {2: [1]}), c([1, 1], {1: [1]}), c([1, 2, 3, 4], {2: [3], 3: [4]}),
+                c([5, 4, 3, 2, 1], {5: [4], 3: [3, 2]}), c([1, 2], {1: [9]})]
+
+    @staticmethod
+    def generate(rng, tier, dist):
+        """every registration list over {1,2,3} up to length 4 with every single reaction 'o unregisters g', then random
+        reaction tables"""
+        cases = []
+        ids = [1, 2, 3]
+        maxlen = 4 if tier == "thorough" else 3
+        for n in range(0, maxlen + 1):
+            for live in itertools.product(ids, repeat=n):
+                cases.append(C14.case(list(live), {}))
+                for o in ids:
+                    for g in ids:
+                        cases.append(C14.case(list(live), {o: [g]}))
+                dist.add("obsround:all-lists-len-%d-single-reaction" % n, 1 + len(ids) ** 2)
+        for _ in range(3000 if tier == "thorough" else 600):
+            live = [rng.randrange(1, 6) for _ in range(rng.randrange(0, 7))]
+            react = {o: [rng.randrange(1, 6) for _ in range(rng.randrange(0, 3))] for o in range(1, 6) if rng.random() < 0.5}
+            cases.append(C14.case(live, react))
+            dist.add("obsround:random-reaction-table")
+        return cases
+
+    @staticmethod
+    def nontrivial(case, model):
+        return case.split()[2] != "-"
+
+    exhaustive_note = ("every registration list over three observers up to length 3 (quick) / 4 (thorough) x every single "
+                       "reaction 'o unregisters g' (itself included), plus random reaction tables over five observers")
+
+
+LEAF = {"C19": C19, "C15": C15, "C16": C16, "C06": C06, "C05": C05, "C14": C14}
 
 
 def evaluate(prop, cases, tag):
